@@ -16,7 +16,8 @@ NCPU = int(os.environ.get("VERIF_WORKERS", "0")) or min(16, os.cpu_count() or 1)
 def pin_environment():
     """Re-exec once with PYTHONHASHSEED=0 and make sure `import magpylib` resolves to REPO."""
     if os.environ.get("PYTHONHASHSEED") != "0":
-        env = dict(os.environ, PYTHONHASHSEED="0")
+        env = dict(os.environ, PYTHONHASHSEED="0", OMP_NUM_THREADS="1", OPENBLAS_NUM_THREADS="1",
+                   MKL_NUM_THREADS="1", NUMEXPR_NUM_THREADS="1")
         os.execve(sys.executable, [sys.executable, "-m", "mc.run"] + sys.argv[1:], env)
     bind_repo()
 
